@@ -302,11 +302,16 @@ func getThresholdMatching(typ core.DutyType, sigs []core.ParSignedData, threshol
 		sigsByMsgRoot[root] = append(sigsByMsgRoot[root], sig)
 	}
 
-	// Return true if we have "threshold" number of signatures.
-	for _, set := range sigsByMsgRoot {
-		if len(set) == threshold {
-			return set, true, nil
-		}
+	// Return true if the newly added (last) signature completes "threshold" number of matching signatures.
+	// Only its own group is checked: a group that reached threshold earlier must not be returned again
+	// when a signature over another root is added later.
+	newRoot, err := sigs[len(sigs)-1].MessageRoot()
+	if err != nil {
+		return nil, false, err
+	}
+
+	if set := sigsByMsgRoot[newRoot]; len(set) == threshold {
+		return set, true, nil
 	}
 
 	return nil, false, nil
